@@ -274,7 +274,7 @@ func run(c Sx) Result {
 		flag := AsU64(l[2])
 		pos := AsU64(l[3])
 		bits := AsBytes(l[4])
-		if flag > 0xffff || pos > 1<<20 {
+		if flag > 0xffff || pos > 1<<20 || (which != 0 && which != 1 && which != 8 && which != 16) {
 			panic("hxlib: setter arguments out of range")
 		}
 		var after []byte
@@ -287,10 +287,8 @@ func run(c Sx) Result {
 				vm.VerifSetN(w, uint16(flag), pos)
 			case 8:
 				vm.VerifSet8(w, pos)
-			case 16:
-				vm.VerifSet16(w, pos)
 			default:
-				panic("hxlib: unknown setter")
+				vm.VerifSet16(w, pos)
 			}
 			after = w
 			return w
@@ -520,9 +518,14 @@ func gen(r *Rng, tier string, emit func(Sx)) {
 			emit(L(I(1), SL(cs)))
 		case 9, 10: // one setter on a given vector
 			ln := r.Range(1, 7)
-			bits := make([]byte, ln)
 			pos := r.Intn(8*ln + 9)
-			if r.Chance(1, 2) { // junk below pos only (the precondition of the analysis), else junk everywhere
+			pre := r.Chance(1, 2)
+			if pre && r.Chance(3, 4) { // leave room for the widest setter
+				ln = r.Range(3, 8)
+				pos = r.Intn(8*ln - 15)
+			}
+			bits := make([]byte, ln)
+			if pre { // junk below pos only (the precondition of the analysis), else junk everywhere
 				for b := 0; b < pos && b < 8*ln; b++ {
 					if r.Bool() {
 						bits[b/8] |= 1 << (b % 8)
